@@ -29,6 +29,7 @@ def run(chk, F):
     chk.guard("execute-pairing", "Sandbox::execute", lambda: execute(chk, F))
     chk.guard("frame-agreement", "Frame", lambda: frame(chk, F))
     chk.guard("child-stdout", "RinkService", lambda: child_stdout(chk, F))
+    chk.guard("restart-keeps-session", "RinkService", lambda: session_state(chk, F))
 
 
 def loops(e):
@@ -469,6 +470,37 @@ def frame(chk, F):
         chk.decide(e["order"] == ["serialize", "write_all", "write_all", "flush"], "frame-agreement", FK, w + ":order", "sandbox/src/frame.rs",
                    "%s: serialize, prefix, body, flush" % w, "%s order is %s" % (w, e["order"]))
     chk.extra["frame_table"] = table
+
+
+def session_state(chk, F):
+    """`a failure affects only the request that caused it: every later request is served normally by a child that is restarted when
+    necessary`.  The child is created from the config alone, so whatever `handle` leaves behind in the Context for later requests
+    is lost with the child.  Rule: every Context field that code reachable from RinkService::handle writes is either written from
+    the request inside `handle` itself before it is used (the parent keeps the session), or is per-request scratch (`now`, set at
+    the start of every evaluation).  Today `previous_result` (`ans`) is neither: after a time-out `ans*2` is "No such unit ans"."""
+    import cg
+    G = cg.get(F)
+    roots = [f for f in F.by_crate["rink"] if "service::RinkService as rink_sandbox::Service>::handle" in f.path and "{closure" not in f.path]
+    if len(roots) != 1:
+        raise AnchorLost("RinkService::handle not found")
+    h = roots[0]
+    reach = G.reachable([h])
+    written = {}
+    for g, bb, j, f, how in cg.field_writes(F, "loader::context::Context"):
+        if g.id in reach:
+            written.setdefault(f, []).append((g, bb))
+    per_request = {"now"}   # overwritten by helpers::eval at the start of every query
+    for f, sites in sorted(written.items()):
+        if f in per_request:
+            chk.ok("restart-keeps-session", "rink::service::RinkService::handle", "field:" + f, sites[0][0].where(sites[0][1]), "per-request scratch, set before every evaluation")
+            continue
+        in_handle = [(g, bb) for g, bb in sites if g.id == h.id]
+        chk.decide(bool(in_handle), "restart-keeps-session", "rink::service::RinkService::handle", "field:" + f, sites[0][0].where(sites[0][1]),
+                   "Context.%s is set by handle itself from what the parent sends with the request" % f,
+                   "Context.%s is written while a request is handled (%s) and read by later requests, but it lives only in the child: any fault that "
+                   "restarts the child loses it (`1+2`, then a query that times out, then `ans*2` answers \"No such unit ans\")" % (f, sites[0][0].path))
+    if "previous_result" not in written:
+        raise AnchorLost("no write to Context.previous_result is reachable from RinkService::handle (the ans mechanism moved)")
 
 
 def child_stdout(chk, F):
